@@ -406,8 +406,51 @@ def _job(job):
     return _session(seed, O, text, ast, probes, None)
 
 
+# subscripts just below a lower bound (in scope or not: either way an evaluation error is owed)
+NEG_SUBS = {
+    'storage-classes': ['ga(-1)', 'sa(0)', 'lc(0)'],
+    'records': ['rs(0).id', 'rs(-2).inn.a'],
+    'recursion-arrays': ['v(4)', 'grid(0, 0)', 'grid(1, -2)', 'dyn(1)', 'a(-1)'],
+}
+
+
+def array_lower_bounds(ast):
+    """array name -> list of constant lower bounds (from the DIM statements of the AST)"""
+    out = {}
+
+    def const(e):
+        while e.get('k') == 'par':
+            e = e['a']
+        if e.get('k') == 'num' and 'v' in e:
+            return e['v']
+        if e.get('k') == 'un' and e.get('o') == 'neg':
+            c = const(e['a'])
+            return None if c is None else -c
+        return None
+
+    def walk(b):
+        for s in b:
+            if s.get('k') == 'dim' and s.get('dims'):
+                lows = [const(d['lo']) for d in s['dims']]
+                if all(x is not None for x in lows):
+                    out[s['n']] = lows
+            for key in ('body', 'els'):
+                if isinstance(s.get(key), list):
+                    walk(s[key])
+            for a in s.get('arms', []):
+                walk(a['body'])
+            for c in s.get('cases', []):
+                walk(c['body'])
+    if ast:
+        walk(ast.get('main', []))
+        for p in ast.get('procs', []):
+            walk(p['body'])
+    return out
+
+
 def _session(seed, O, text, ast, probes, text_probes):
     fixed = text_probes is not None
+    lower_bounds = array_lower_bounds(ast)
     if fixed:
         probes = {ln: [{'k': 'txt', 'x': x} for x in xs] for ln, xs in text_probes.items()}
     free = recmod.run_recorded(text, O, True, budget=60000)
@@ -509,6 +552,12 @@ def _session(seed, O, text, ast, probes, text_probes):
             arrays_in(probes[ln], arrs)
             for a in arrs[:1]:
                 ask('subscript', '%s(%s)' % (a['n'], ', '.join(['30000'] * len(a['ix']))), ln)
+                # just below the lower bound (a Python list would wrap around)
+                lows = lower_bounds.get(a['n'])
+                if lows and len(lows) == len(a['ix']):
+                    ask('subscript', '%s(%s)' % (a['n'], ', '.join([str(lows[0] - 1)] + [str(x) for x in lows[1:]])), ln)
+            for et in NEG_SUBS.get(seed, []) if fixed else []:
+                ask('subscript', et, ln)
         stops.append({'ln': ln, 'e0': len(ob.events), 'answers': answers})
     # run to the end, then evaluate after the program has finished
     guard = 0
